@@ -189,19 +189,21 @@ def run_full_lexer(ctx, drv, bj, sj, corpus_lexer, variant_letter, fail):
     ctx.extra["lexer_class_codepoints_compared"] = len(cps)
 
     # ---- token streams ---------------------------------------------------------------------------------------------
-    n1, n2 = (4, 3) if quick else (5, 5)
+    n1, n2 = (4, 3) if quick else (5, 4)
     exh1 = ["".join(t) for n in range(n1 + 1) for t in itertools.product(LEX_ALPHA, repeat=n)]
     tagbody = ["".join(t) for n in range(n2 + 1) for t in itertools.product(TAG_ALPHA, repeat=n)]
     # the second alphabet is the one of the tag rules: only interesting after a begin token
-    short = [s for s in tagbody if len(s) <= (3 if quick else 4)]
-    exh2 = ["{{" + s for s in (short if quick else tagbody)] + ["{%" + s for s in short]
-    nrand = 2500 if quick else 30000
+    exh2 = ["{{" + s for s in tagbody] + ["{%" + s for s in tagbody]
+    nrand = 1000 if quick else 12000
     rand = ["".join(rng.choice(FRAGS) for _ in range(rng.randint(1, 16))) for _ in range(nrand)]
     corpus = list(corpus_lexer)
     grid_full = [(ls_, tr_, ls, lc) for ls_ in (False, True) for tr_ in (False, True) for ls, lc in _SETTINGS_LINE]
-    grid_exh = [(ls_, tr_, ls, lc) for ls_ in (False, True) for tr_ in (False, True) for ls, lc in (_SETTINGS_LINE[:2] if quick else _SETTINGS_LINE[:4])]
-    plan = [("exhaustive-delimiters", exh1, grid_exh), ("exhaustive-tag-characters", exh2, grid_exh[:4] if quick else grid_exh),
-            ("random+corpus", corpus + rand, grid_full)]
+    grid_base = [(ls_, tr_, None, None) for ls_ in (False, True) for tr_ in (False, True)]
+    grid_line = [(ls_, tr_, ls, lc) for ls_ in (False, True) for tr_ in (False, True) for ls, lc in (_SETTINGS_LINE[1:2] if quick else _SETTINGS_LINE[1:4])]
+    grid_exh = grid_base + grid_line
+    exh1_line = [s for s in exh1 if len(s) <= (3 if quick else 4)]
+    plan = [("exhaustive-delimiters", exh1, grid_base), ("exhaustive-delimiters-line-prefixes", exh1_line, grid_line),
+            ("exhaustive-tag-characters", exh2, grid_base), ("random+corpus", corpus + rand, grid_full)]
     ctx.extra["full_lexer_domain"] = {"exhaustive_delimiter_strings": len(exh1), "max_length": n1, "exhaustive_tag_strings": len(exh2),
                                       "random": nrand, "corpus": len(corpus), "settings_exhaustive": len(grid_exh), "settings_random": len(grid_full),
                                       "line_prefixes": [list(map(str, x)) for x in _SETTINGS_LINE]}
